@@ -3,37 +3,10 @@
 package wsflate
 
 import (
-	"bytes"
 	"io"
-
-	"github.com/gobwas/ws"
 )
 
 var vTail = []byte{0x00, 0x00, 0xff, 0xff} // RFC 7692 §7.2.1
-
-// C12_cbuf_step (inductive step): from an arbitrary cbuf state, one Write of <= 9 bytes keeps
-// "flushed ++ held == everything written" and "held = min(4, total)".
-func C12_cbuf_step() {
-	dst := &vRecW{}
-	n0 := vChoose("n0", 5)
-	c := &cbuf{dst: dst, n: n0}
-	held := vBytes("held", 4)
-	copy(c.buf[:], held)
-	p := vBytes("p", vChoose("plen", 10))
-	keep := append([]byte{}, p...)
-	k, err := c.Write(p)
-	vAssert(vAnd(err == nil, k == len(p)), "cbuf.accepts_all")
-	vAssert(vEqBytes(p, keep), "cbuf.caller_intact")
-	want := len(p) + n0
-	if want > 4 {
-		want = 4
-	}
-	vAssert(c.n == want, "cbuf.holds_min4")
-	all := append(append([]byte{}, held[:n0]...), keep...)
-	now := append(append([]byte{}, dst.all...), c.buf[:c.n]...)
-	vAssert(vEqBytes(now, all), "cbuf.stream_preserved")
-	vTraceBytes("flushed", dst.all)
-}
 
 // vComp is a stub compressor emitting ARBITRARY bytes (the real DEFLATE coder is outside reach).
 type vComp struct {
@@ -49,47 +22,6 @@ func (c *vComp) emit(tag string, max int) error {
 }
 func (c *vComp) Write(p []byte) (int, error) { return len(p), c.emit("cw", 3) }
 func (c *vComp) Flush() error                { return c.emit("cf", 5) }
-
-// C12_writer_tail: Flush/Close succeed iff the compressor's output ends in 00 00 ff ff; then the
-// destination, with that tail appended, is byte-for-byte the compressor's output; otherwise the
-// error is reported and is sticky.
-func C12_writer_tail() {
-	dst := &vRecW{}
-	var comp *vComp
-	w := NewWriter(dst, func(x io.Writer) Compressor { comp = &vComp{w: x}; return comp })
-	writes := 1 + vChoose("writes", 2)
-	for i := 0; i < writes; i++ {
-		k, err := w.Write([]byte{'d', 'a', 't', 'a'})
-		vAssert(vAnd(err == nil, k == 4), "wt.write_ok")
-	}
-	useClose := vChoose("close", 2) == 1
-	var err error
-	if useClose {
-		w.Flush()
-		err = w.Close()
-	} else {
-		err = w.Flush()
-	}
-	out := comp.out
-	endsInTail := len(out) >= 4
-	if endsInTail {
-		endsInTail = vConcrete(vIte(vEqBytes(out[len(out)-4:], vTail), 1, 0)) == 1
-	}
-	if useClose && err != nil {
-		return // Flush already failed; covered by the other branch
-	}
-	vAssert((err == nil) == endsInTail, "wt.ok_iff_stream_ends_in_tail")
-	if err == nil {
-		vAssert(vEqBytes(append(append([]byte{}, dst.all...), vTail...), out), "wt.destination_plus_tail_is_compressor_output")
-	} else {
-		_, e2 := w.Write([]byte{'x'})
-		vAssert(vAnd(e2 == err, vAnd(w.Flush() == err, w.Err() == err)), "wt.error_sticky")
-		// Reset re-arms the writer as new (C18)
-		dst2 := &vRecW{}
-		w.Reset(dst2)
-		vAssert(vAnd(w.Err() == nil, vAnd(w.cbuf.n == 0, vAnd(w.cbuf.err == nil, w.cbuf.buf == [4]byte{}))), "wt.reset_as_new")
-	}
-}
 
 // vDecomp consumes its source with an arbitrary pattern of Read(k)/ReadByte calls.
 type vDecomp struct {
@@ -138,30 +70,6 @@ type vPlain struct{ r io.Reader }
 
 func (p vPlain) Read(b []byte) (int, error) { return p.r.Read(b) }
 
-// C12_suffixed_reader: whatever the decompressor's read pattern and the source's chunking, it
-// sees exactly payload ++ 00 00 ff ff 01 00 00 ff ff and then EOF.
-func C12_suffixed_reader() {
-	n := vChoose("n", 4)
-	payload := vBytes("p", n)
-	var src io.Reader = bytes.NewReader(payload)
-	byteReader := vChoose("bytereader", 2) == 1
-	if !byteReader {
-		src = vPlain{&vBytesSrc{data: payload, one: vChoose("one", 2) == 1, eofWith: vChoose("eofwith", 2) == 1}}
-	}
-	var d *vDecomp
-	r := NewReader(src, func(x io.Reader) Decompressor { d = &vDecomp{r: x}; return d })
-	_, hasBR := d.r.(io.ByteReader)
-	vAssert(hasBR == byteReader, "sr.bytereader_offered_iff_source_has_it")
-	_, err := r.Read(make([]byte, 8))
-	vAssert(err == io.EOF, "sr.eof")
-	want := append(append([]byte{}, payload...), 0x00, 0x00, 0xff, 0xff, 0x01, 0x00, 0x00, 0xff, 0xff)
-	vAssert(vEqBytes(d.seen, want), "sr.sees_payload_plus_tail")
-	// Reset re-arms the suffix for the next message (C18)
-	src2 := bytes.NewReader([]byte{7})
-	r.Reset(src2)
-	vAssert(vAnd(r.Err() == nil, vAnd(r.sr.pos == 0, r.sr.r != nil)), "sr.reset_as_new")
-}
-
 // identity codec with the sync-flush tail, to exercise the library's own framing code
 type vIdComp struct{ w io.Writer }
 
@@ -196,33 +104,4 @@ func (d *vIdDecomp) Read(p []byte) (int, error) {
 	n := copy(p, d.data[d.pos:])
 	d.pos += n
 	return n, nil
-}
-
-// C12_frame_helpers: the frame-level helpers keep header and payload (apart from RSV1 and the
-// length), refuse non-final frames, pass uncompressed frames through.
-func C12_frame_helpers() {
-	h := Helper{
-		Compressor:   func(w io.Writer) Compressor { return vIdComp{w} },
-		Decompressor: func(r io.Reader) Decompressor { return &vIdDecomp{r: r} },
-	}
-	n := vChoose("n", 4)
-	p := vBytes("p", n)
-	f := ws.Frame{Header: ws.Header{Fin: vBool("fin"), OpCode: ws.OpCode(1 + vChoose("op", 2)), Rsv: vU8("rsv") & 3, Length: int64(n)}, Payload: p}
-	c, err := h.CompressFrame(f)
-	if !f.Header.Fin {
-		vAssert(err != nil, "fh.compress_refuses_nonfinal")
-		_, derr := h.DecompressFrame(f)
-		vAssert(derr != nil, "fh.decompress_refuses_nonfinal")
-		return
-	}
-	vAssert(err == nil, "fh.compress_ok")
-	vAssert(vAnd(c.Header.Rsv == f.Header.Rsv|4, vAnd(c.Header.OpCode == f.Header.OpCode, c.Header.Fin)), "fh.header_same_but_rsv1")
-	vAssert(c.Header.Length == int64(len(c.Payload)), "fh.length_is_payload_length")
-	vAssert(vEqBytes(c.Payload, p), "fh.identity_codec_payload_without_tail")
-	d, err := h.DecompressFrame(c)
-	vAssert(err == nil, "fh.decompress_ok")
-	vAssert(vAnd(d.Header == f.Header, vEqBytes(d.Payload, p)), "fh.roundtrip_same_frame")
-	// an uncompressed frame passes through untouched
-	u, err := h.DecompressFrame(f)
-	vAssert(vAnd(err == nil, vAnd(u.Header == f.Header, vEqBytes(u.Payload, p))), "fh.uncompressed_untouched")
 }
